@@ -335,6 +335,67 @@ def pauli_witness(rng, n):
         blocks.append({"kind": "p", "nterms": len(fam2), "initial": False, "paulis": list(fam2)})
     return {"nq": nq, "layers": 1 + (n // 2) % 2, "blocks": blocks, "seed": 7000 + n}
 
+
+# ------------------------------------------------------------------------------------------------
+# histories: several calls on ONE VQA object with ONE parameter container that is updated in place between calls
+def make_history(rng, nfree, nsteps=None):
+    """-> {"container": "list"|"array", "start": [...], "steps": [{"fresh": bool, "set": [[i, v], ..], "op": "jac"|"eval"|"state",
+    "idx": None|[..]}]}; "set" assigns coordinates IN PLACE before the call, "fresh" first replaces the container by a new
+    one with equal values"""
+    start = [round(rng.uniform(-3.0, 3.0), 4) for _ in range(nfree)]
+    steps = []
+    nsteps = nsteps or rng.randint(3, 6)
+    pattern = rng.choice(["descent", "sweep", "eval-then-jac", "mixed"])
+    for t in range(nsteps):
+        st = {"fresh": False, "set": [], "op": "jac", "idx": None}
+        if t > 0 and nfree:
+            if pattern == "descent":
+                st["set"] = [[i, round(rng.uniform(-3.0, 3.0), 4)] for i in range(nfree)]
+            elif pattern == "sweep":
+                i = (t - 1) % nfree
+                st["set"] = [[i, round(rng.uniform(-3.0, 3.0), 4)]]
+                st["idx"] = [i]
+            elif pattern == "eval-then-jac":
+                st["set"] = [[rng.randrange(nfree), round(rng.uniform(-3.0, 3.0), 4)] for _ in range(rng.randint(1, 2))]
+            else:
+                r = rng.random()
+                if r < 0.2:
+                    st["fresh"] = True
+                elif r < 0.85:
+                    st["set"] = [[rng.randrange(nfree), round(rng.uniform(-3.0, 3.0), 4)] for _ in range(rng.randint(1, nfree))]
+                if rng.random() < 0.4:
+                    st["idx"] = sorted(rng.sample(range(nfree), rng.randint(1, nfree)))
+        if pattern == "eval-then-jac":
+            st["op"] = ["eval", "jac", "state", "jac", "eval", "jac"][t % 6]
+        elif pattern == "mixed":
+            st["op"] = rng.choice(["jac", "jac", "eval", "state"])
+        steps.append(st)
+    if not any(st["op"] == "jac" for st in steps[1:]):
+        steps[-1]["op"] = "jac"
+    return {"container": rng.choice(["list", "array"]), "start": start, "steps": steps}
+
+
+def run_history(v, hist):
+    """execute the history on the object `v`; yields (step index, step, copy of the current vector, result | exception)"""
+    x = list(hist["start"]) if hist["container"] == "list" else np.array(hist["start"], dtype=float)
+    for t, st in enumerate(hist["steps"]):
+        if st.get("fresh"):
+            x = list(x) if hist["container"] == "list" else np.array(x, dtype=float)
+        for i, val in st.get("set", []):
+            x[i] = val                                   # in place: same container object as in the previous call
+        cur = [float(a) for a in x]
+        try:
+            if st["op"] == "jac":
+                out = v.compute_jac(x, st["idx"]) if st.get("idx") is not None else v.compute_jac(x)
+                out = np.atleast_1d(np.asarray(out, dtype=float))
+            elif st["op"] == "eval":
+                out = float(np.real(v.evaluate_parameters(x)))
+            else:
+                out = v.get_final_state(x).full().ravel()
+        except Exception as e:  # canonicalised by the caller
+            out = e
+        yield t, st, cur, out
+
 class Word:
     """element of the free monoid; the Qobj identity that starts both lists acts as the empty word"""
 
@@ -435,7 +496,12 @@ class C19(PropertyCheck):
         "py/props/c19.py (harness; instance-level wrappers around get_unitary_products / get_unitary_derivative / "
         "cost_derivative record indices and matrices, exceptions canonicalised to {angles,noangles,funcderiv,noobs,nocostfunc})",
     ]
-    assumptions = ["observable cost mode (cost_method OBSERVABLE with cost_observable set); the theorem is about the real part of the "
+    assumptions = ["contract on histories: VQA keeps no state between calls that depends on the parameter vector — every "
+                   "compute_jac / evaluate_parameters / get_final_state call on an object that was used before, with a parameter "
+                   "container (list or ndarray) that the caller updated IN PLACE since the previous call, must return what the same "
+                   "call returns on a fresh VQA object with a fresh vector (the model is a function of (blocks, layers, vector, "
+                   "indices) only); checked on interleaved histories",
+                   "observable cost mode (cost_method OBSERVABLE with cost_observable set); the theorem is about the real part of the "
                    "cost, which is the cost for a Hermitian observable (cost_real)",
                    "function blocks (types.FunctionType) are outside the property's class: compute_jac raises TypeError for them (modelled)"]
     rule = ("case = (block structure: kinds h/u/n/p(k terms)/f with initial flags, layers 1-3, qubits 1-3, length of the angle "
@@ -444,7 +510,8 @@ class C19(PropertyCheck):
             "stream (wrong vector length, negative/duplicate/out-of-range indices, 0-term Hamiltonians, function blocks), the cost "
             "configurations (cost_method x observable set/None x cost_func set/None), special parameter vectors (all zeros, equal / "
             "vanishing coordinates, multiples of pi/2, coordinates 1e-12 apart; Pauli-string multi-parameter blocks whose summed "
-            "Hamiltonian is degenerate there); every in-class case that returns is also "
+            "Hamiltonian is degenerate there); histories on one VQA object with one list/ndarray updated in place between interleaved "
+            "compute_jac / evaluate_parameters / get_final_state calls (each call = the call on a fresh object); every in-class case that returns is also "
             "re-evaluated numerically (propagators, derivative matrices, cost, jacobian values); "
             "non-trivial = at least one free parameter and (>= 2 series entries or a multi-parameter block)")
 
@@ -655,6 +722,7 @@ class C19(PropertyCheck):
         self._compare_words(ctx, res)
         self._compare_costcfg(ctx, res)
         self._special_pass(ctx, res)
+        self._history_pass(ctx, res)
 
     def _compare_special(self, ctx, res, w, v, angles, tags=()):
         """compute_jac at a special parameter vector (zeros, equal, pi-multiples, 1e-12 apart; coordinates need not be
@@ -711,6 +779,61 @@ class C19(PropertyCheck):
             v = build_vqa(w)
             for a in special_angles(rng, nfree_of(w), 4):
                 self._compare_special(ctx, res, w, v, a, tags=["random"])
+
+    def _history_pass(self, ctx, res):
+        """one VQA object, one parameter container updated in place between calls (list and ndarray), interleaved
+        compute_jac (all / subsets) / evaluate_parameters / get_final_state, also a fresh container with equal values.
+        The model is stateless: every call must equal the same call on a fresh VQA object with a fresh vector, and (in class)
+        the numerical re-evaluation of the Lean semantics at the CURRENT vector."""
+        rng = ctx.rng
+        for n in range(160 if ctx.thorough else 45):
+            w = pauli_witness(rng, rng.randint(0, 10 ** 4)) if n % 3 == 0 else self._random_witness(rng, maxblocks=3)
+            nfree = nfree_of(w)
+            if nfree == 0:
+                continue
+            hist = make_history(rng, nfree)
+            v = build_vqa(w)
+            enc = enc_blocks(w["blocks"])
+            L = w["layers"]
+            for t, st, cur, out in run_history(v, hist):
+                inp = {"nq": w["nq"], "layers": L, "blocks": enc, "seed": w.get("seed"), "history": hist, "step": t}
+                wit = dict(w, history=dict(hist, steps=hist["steps"][:t + 1]))
+                res.case(inp, nontrivial=t > 0, tags=["history", "history-" + hist["container"], "history-op=" + st["op"]])
+                fresh = build_vqa(w)
+                try:
+                    if st["op"] == "jac":
+                        ref = np.atleast_1d(np.asarray(fresh.compute_jac(list(cur), st["idx"]) if st.get("idx") is not None
+                                                       else fresh.compute_jac(list(cur)), dtype=float))
+                    elif st["op"] == "eval":
+                        ref = float(np.real(fresh.evaluate_parameters(list(cur))))
+                    else:
+                        ref = fresh.get_final_state(list(cur)).full().ravel()
+                except Exception as e:
+                    ref = e
+                if isinstance(out, Exception) or isinstance(ref, Exception):
+                    a = classify_exc(out) if isinstance(out, Exception) else "ok"
+                    b = classify_exc(ref) if isinstance(ref, Exception) else "ok"
+                    if a != b:
+                        res.disagree(inp, b, a, f"history step {t} ({st['op']}): verdict differs from the same call on a fresh VQA", wit)
+                        break
+                    continue
+                if not close(out, ref, 1e-12):
+                    res.disagree(inp, np.round(np.real(ref), 9).tolist(), np.round(np.real(out), 9).tolist(),
+                                 f"history step {t}: {st['op']} on the reused object/container (updated in place) differs from the "
+                                 f"same call on a fresh VQA at the current vector {cur}", wit)
+                    break
+                if st["op"] == "jac" and self.in_class(w):
+                    idxs = "default" if st.get("idx") is None else ",".join(map(str, st["idx"]))
+                    model, circ_line = ctx.driver("drv_vqa").run(
+                        [f"jac layers={L} blocks={enc} nangles={nfree} idx={idxs} orig=0", f"circuit layers={L} blocks={enc} nangles={nfree}"])
+                    # derivative matrices of THIS call on the reused object are not recorded (no wrappers inside a history): use
+                    # a recording run on the fresh object for them, the jacobian values are the reused object's
+                    status, jac2, log = instrumented_jac(build_vqa(w), list(cur), st.get("idx"))
+                    if status == "ok" and model.startswith("ok"):
+                        bad = self._semantic(ctx, w, fresh, list(cur), model, log, out, circ_line)
+                        if bad:
+                            res.disagree(inp, bad[1], bad[2], f"history step {t}: matrix semantics at the current vector: " + bad[0], wit)
+                            break
 
     def _compare_costcfg(self, ctx, res):
         """cost_method x cost_observable set/None x cost_func set/None: compute_jac ignores cost_method and cost_func,
@@ -783,6 +906,8 @@ class C19(PropertyCheck):
         """the property on the real code: shape and values of compute_jac against central differences"""
         if not self.in_class(w):
             return False, "outside the property's class (function block, 0-term Hamiltonian, or not observable cost mode)"
+        if w.get("history"):
+            return self._replay_history(w)
         v = build_vqa(w)
         nfree = v.get_free_parameters_num()
         angles = w.get("angles")
@@ -808,6 +933,43 @@ class C19(PropertyCheck):
             j = int(np.argmax(err - tol))
             return True, f"entry {j} (parameter {want[j]}): analytic {jac[j]:.9g} vs finite difference {fd[j]:.9g}"
         return False, f"{len(want)} entries agree with central differences"
+
+    def _replay_history(self, w):
+        """one VQA object, one container updated in place: every compute_jac of the history against central differences of
+        the cost at the CURRENT vector (differences taken on a fresh object with fresh vectors)"""
+        v = build_vqa(w)
+        nfree = v.get_free_parameters_num()
+        hist = w["history"]
+        if len(hist["start"]) != nfree:
+            return False, "parameter vector of the wrong length (not an input of the property)"
+        njac = 0
+        for t, st, cur, out in run_history(v, hist):
+            if st["op"] != "jac":
+                if isinstance(out, Exception):
+                    return True, f"history step {t} ({st['op']}) raised {type(out).__name__}: {out}"
+                continue
+            if isinstance(out, Exception):
+                return True, f"history step {t}: compute_jac raised {type(out).__name__}: {out}"
+            idx = st.get("idx")
+            want = list(range(nfree)) if idx is None else sorted({i for i in idx if 0 <= i < nfree})
+            if out.shape != (len(want),):
+                return True, f"history step {t}: jacobian has {out.shape} entries for {len(want)} requested free parameters"
+            fd = fd_gradient(build_vqa(w), list(cur), want)
+            err = np.abs(out - fd)
+            tol = 1e-6 + 1e-5 * np.abs(fd)
+            njac += 1
+            if np.any(err > tol):
+                j = int(np.argmax(err - tol))
+                return True, (f"history step {t} ({hist['container']} updated in place): entry {j} (parameter {want[j]}): analytic "
+                              f"{out[j]:.9g} vs finite difference {fd[j]:.9g} at the current vector {cur}")
+        return False, f"{njac} jacobians of the history agree with central differences at their current vectors"
+
+    def _history_witness(self, rng):
+        for _ in range(20):
+            w = pauli_witness(rng, rng.randint(0, 10 ** 4)) if rng.random() < 0.3 else self._random_witness(rng, maxblocks=3)
+            if nfree_of(w):
+                return dict(w, history=make_history(rng, nfree_of(w)))
+        return None
 
     def _oracle_witness(self, rng):
         if rng.random() < 0.3:
@@ -836,7 +998,15 @@ class C19(PropertyCheck):
             f, d = self.oracle_replay(ctx, w)
             if f:
                 yield w, d
-            if time.time() - t0 > budget_s / 2:
+            if time.time() - t0 > budget_s / 3:
+                break
+        for _ in range(40):
+            w = self._history_witness(ctx.rng)
+            if w is not None:
+                f, d = self.oracle_replay(ctx, w)
+                if f:
+                    yield w, d
+            if time.time() - t0 > 2 * budget_s / 3:
                 break
         for blocks in structures(2):
             for L in (1, 2):
@@ -863,6 +1033,12 @@ class C19(PropertyCheck):
             f, d = self.oracle_replay(ctx, w)
             if f:
                 yield w, d
+        for _ in range(30 if ctx.thorough else 10):
+            w = self._history_witness(ctx.rng)
+            if w is not None:
+                f, d = self.oracle_replay(ctx, w)
+                if f:
+                    yield w, d
 
 
 CHECK = C19()
